@@ -1,7 +1,27 @@
-/- stub: overwritten by the builder of this engine -/
-import Driver.Common
+/-
+Driver for E2 (grammar IR / derivation checker).
+  {"op":"valid","grammar":G,"oracle":O,"tree":T}  → {"valid":bool,"bad":path|null}
+  {"op":"match","node":N,"oracle":O,"toks":[tok…]} → {"match":bool}
+-/
+import Driver.IRJson
 open Lean FV FV.Drv
 
-def handle (_ : Json) : Except String Json := throw "driver not implemented"
+def handle (j : Json) : Except String Json := do
+  let op ← j.getObjValAs? String "op"
+  match op with
+  | "valid" =>
+    let G ← grammarOf (← j.getObjVal? "grammar")
+    let R ← oracleOf (← j.getObjVal? "oracle")
+    let t ← treeOf (← j.getObjVal? "tree")
+    let bad := match firstBad G R t with
+      | none => Json.null
+      | some p => jNats p
+    return Json.mkObj [("valid", Json.bool (validB G R t)), ("bad", bad)]
+  | "match" =>
+    let n ← nodeOf (← j.getObjVal? "node")
+    let R ← oracleOf (← j.getObjVal? "oracle")
+    let ts ← (← (← j.getObjVal? "toks").getArr?).toList.mapM tokOfJson
+    return Json.mkObj [("match", Json.bool (matchIR R n ts))]
+  | _ => throw s!"unknown op {op}"
 
 def main : IO Unit := run handle
